@@ -1313,13 +1313,22 @@ impl MdkStorageProvider for MdkSqliteStorage {
         #[cfg(feature = "verif-hooks")]
         verif::tick(verif::Point::Conn);
         let conn = self.connection.lock().unwrap();
-        let deleted = conn
-            .execute(
-                "DELETE FROM group_state_snapshots WHERE created_at < ?",
+        // The contract (and the memory backend) report the number of snapshots pruned, not
+        // the number of rows a snapshot happens to consist of.
+        let pruned: i64 = conn
+            .query_row(
+                "SELECT COUNT(*) FROM (SELECT DISTINCT snapshot_name, group_id
+                 FROM group_state_snapshots WHERE created_at < ?)",
                 rusqlite::params![min_timestamp as i64],
+                |row| row.get(0),
             )
             .map_err(|e| MdkStorageError::Database(e.to_string()))?;
-        Ok(deleted)
+        conn.execute(
+            "DELETE FROM group_state_snapshots WHERE created_at < ?",
+            rusqlite::params![min_timestamp as i64],
+        )
+        .map_err(|e| MdkStorageError::Database(e.to_string()))?;
+        Ok(pruned as usize)
     }
 }
 
